@@ -31,7 +31,8 @@ def describe(tier):
         "rule": ep.RULE_PREFIX + "Oracle on EVERY node of EVERY tree: root = ('', input, '', 0, len(input), no parent); each node listed "
         "exactly once (identity) by the node its parent pointer names; list(root) equals the identity pre-order walk; 0<=start<=end<=len(parent.value). "
         "Long texts (300 bytes to 70/140/300 kB) with every list of <= 2 (3) hits over 7 scaled positions x 4 kinds. Dedicated sub-structure families (scan level): the encoded/plain PowerShell grammar of C16, the URL grammars and Windows path grammar of C12, xor "
-        "carriers x keys, valid and truncated PE images. "
+        "carriers x keys, valid and truncated PE images. Object lifetime: for the block N=4,K<=2 and the ctx/mix stream families the caller keeps only list(scan(..)) / scan(..).children and drops the root; "
+        "every kept node must still reach the root through its parent pointers and slice its parent exactly as when the root is held. "
         "Non-trivial = a tree with at least one node two levels below the root or with decoder-supplied sub-structure (distinct by shape).",
         "bounds": BOUNDS[tier],
         "assumptions": ["scans that raise or hang are counted and left to C01", "fixture keyword directory instead of the 5316 shipped keywords"],
@@ -60,14 +61,79 @@ SUB = ["ps-enc", "ps-plain", "urlA", "urlB", "win", "xor", "pe"]
 
 
 def plan(tier, seed):
-    units = [(tier,) + u for u in ep.plan(BOUNDS[tier])]
+    units = [(tier,) + u for u in ep.plan(BOUNDS[tier])] + ep.interp_units(tier)
     for kind in SUB:
         for part in range(8):
             units.append((tier, "sub", kind, part))
     for n in LONG_N[tier]:
         for part in range(16):
             units.append((tier, "long", n, part))
+    units += [(tier, "lifetime", "small")] + [(tier, "lifetime", u) for u in streams.plan("quick", lite=1, fams=["ctx", "mix"])]
     return units
+
+
+# ---- object lifetime: the caller keeps nodes but not the root (nodes = list(md.scan(data)), md.scan(data).children, a helper returning a sub-node)
+
+
+def _chain(n):
+    out = []
+    while n is not None and len(out) < 64:
+        out.append((n.type, n.value, n.obfuscation, n.start, n.end, n.original))
+        n = n.parent
+    return tuple(out)
+
+
+def lifetime_check(rec, reg, data, depth, w, size):
+    from multidecoder.multidecoder import Multidecoder
+
+    rec.count("evaluations")
+    try:
+        root = Multidecoder(reg).scan(data, depth)
+        held = [_chain(n) for n in root]
+        nodes = list(Multidecoder(reg).scan(data, depth))  # the root is not kept by the caller
+        dropped = [_chain(n) for n in nodes]
+        kids = Multidecoder(reg).scan(data, depth).children
+        top = [_chain(n) for n in kids]
+    except core.Hang:
+        raise
+    except Exception:  # noqa: BLE001
+        rec.note("scan-raised (reported by C01)")
+        return
+    rec.count("traces")
+    rec.count("transitions", len(held))
+    if held:
+        rec.mark("nontrivial", (data, depth))
+    if dropped != held or top != [c for c in held if len(c) == 2]:
+        bad = [c for c, h in zip(dropped, held) if c != h][:1] or [c for c in top][:1]
+        rec.violation("C03.parent-links", "parent-chain-lost-when-root-not-kept", w,
+                      f"scan of {core.short(data, 60)} at depth {depth}: a node kept by the caller after the root was dropped no longer reaches the root through its parent "
+                      f"pointers / no longer slices its parent: chain {core.short(bad, 200)}", size)
+
+
+def run_lifetime(rec, tier, what):
+    n = 0
+    if what == "small":
+        T = hitx.text_for(ep.SMALL["N"], False)
+        for first in hitx.candidates(ep.SMALL["N"], hitx.KINDS):
+            for hits in hitx.configs_from(first, ep.SMALL["N"], ep.SMALL["K"], kinds=hitx.KINDS):
+                for depth in (1, 2):
+                    for mode in ("r0", "rp"):
+                        _, ireg = hitx.registries(T, hits, mode, False)
+                        rec.mark("states", (hits, depth, mode), True)
+                        lifetime_check(rec, ireg, T, depth, {"engine": "lifetime", "T": T, "hits": [list(h) for h in hits], "depth": depth, "mode": mode}, len(hits) * 100 + depth)
+                        n += 1
+    else:
+        from mdmc import families
+        name, t, first, lite = what
+        fam = families.get(name)
+        reg = streams.registry()
+        for level, s, unique in fam.states(t, first, fam.L[t] - lite):
+            rec.mark("states", s, unique)
+            for pre, suf in fam.wraps:
+                data = pre + s + suf
+                lifetime_check(rec, reg, data, 10, {"engine": "lifetime-stream", "family": name, "data": data, "depth": 10}, len(data))
+                n += 1
+    rec.sample({"engine": "lifetime", "what": what if isinstance(what, str) else list(what), "cases": n})
 
 
 def sub_inputs(tier, kind, part, nparts=8):
@@ -201,6 +267,9 @@ def run_unit(unit, rec):
     if unit[1] == "sub":
         run_sub(rec, unit[0], unit[2], unit[3])
         return
+    if unit[1] == "lifetime":
+        run_lifetime(rec, unit[0], unit[2])
+        return
     ep.run_unit(unit[1:], rec, BOUNDS[unit[0]], TOTAL, on_run, on_case)
 
 
@@ -211,5 +280,12 @@ def replay(w, rec):
         ok, run = rec.guard(TOTAL, w, 0, hitx.execute, T, hits, 2, "r0", False)
         if ok:
             monitors.c03(rec, run.impl, T, run.log, w, 0)
+        return
+    if w.get("engine") == "lifetime":
+        _, ireg = hitx.registries(w["T"], tuple(tuple(h) for h in w["hits"]), w["mode"], False)
+        lifetime_check(rec, ireg, w["T"], w["depth"], w, 0)
+        return
+    if w.get("engine") == "lifetime-stream":
+        lifetime_check(rec, streams.registry(), w["data"], w["depth"], w, 0)
         return
     ep.replay(w, rec, TOTAL, on_run, on_case)
